@@ -81,10 +81,13 @@ func ensureFileExists(path string, mode os.FileMode) error {
 	if !errors.Is(err, os.ErrNotExist) {
 		return err
 	}
-	if err := os.WriteFile(path, []byte{}, mode); err != nil {
+	// Create without truncating: another process may have created (and
+	// written) the file since the Stat above.
+	file, err := os.OpenFile(path, os.O_CREATE|os.O_WRONLY, mode)
+	if err != nil {
 		return fmt.Errorf("cannot create %s: %w", path, err)
 	}
-	return nil
+	return file.Close()
 }
 
 func newEvent(eventType string, ts time.Time, payload interface{}) (Event, error) {
